@@ -147,6 +147,11 @@ def build_pool(seed, tier):
     for cu, q in multi_ref:
         for ref in ('2016-11-07T10:30:00', '2017-11-07T00:00:00', '2019-03-01T12:00:00', '2020-02-29T23:59:59'):
             pool.append(['datetime', cu, 0, q, ref])
+    # year-less numeric dates of both orders under ONE reference: what an earlier call (or an earlier date of the same reference)
+    # taught the parser must not change how the next ambiguous date is read
+    for cu in ('en-us', 'es-es', 'fr-fr', 'it-it', 'pt-br', 'nl-nl', 'de-de'):
+        for q in HISTORY_DATES:
+            pool.append(['datetime', cu, 0, q, '2016-11-07T00:00:00'])
     seen, out = set(), []
     for t in pool:
         key = json.dumps(t, ensure_ascii=False)
@@ -176,9 +181,24 @@ def helpers():
     def call(t):
         kind, cu, opt, q, ref = t
         if kind == 'datetime':
-            return recognize_datetime(q, cu, DateTimeOptions(opt), dt.datetime.strptime(ref, '%Y-%m-%dT%H:%M:%S') if ref else None)
+            return recognize_datetime(q, cu, DateTimeOptions(opt), ref_object(ref))
         return F[kind](q, cu)
     return call
+
+
+HISTORY_DATES = ['25/3', '3/25', '5/3', '7/8', '13/2', '2/13', '12/11', '25-3', '5-3', '3.25', '5.3']
+REF_OBJECTS = {}
+
+
+def ref_object(ref):
+    """ONE datetime object per distinct reference instant and process, as a caller does who takes `now` once and asks about
+    several texts: state keyed on the identity of the reference object is then shared between calls like any other state"""
+    if not ref:
+        return None
+    o = REF_OBJECTS.get(ref)
+    if o is None:
+        o = REF_OBJECTS.setdefault(ref, dt.datetime.strptime(ref, '%Y-%m-%dT%H:%M:%S'))
+    return o
 
 
 def longlived_caller():
@@ -203,7 +223,7 @@ def longlived_caller():
             models[mk] = getattr(rec, GETTER[kind])(cu, True)
         m = models[mk]
         if kind == 'datetime':
-            return m.parse(q, dt.datetime.strptime(ref, '%Y-%m-%dT%H:%M:%S') if ref else None)
+            return m.parse(q, ref_object(ref))
         return m.parse(q)
     return call
 
